@@ -241,9 +241,9 @@ class InterpMixin(object):
             if model is not None:
                 return model(self, args, kwargs)
             if self.eng.is_repo_function(fn):
-                c = self.eng.contracts.get(fn)
-                if c is not None and fn is not self.cur_fn_under_proof():
-                    return self.apply_contract(c, fn, args, kwargs)
+                cs = self.eng.contracts.get(fn)
+                if cs and fn is not self.cur_fn_under_proof():
+                    return self.apply_contract(cs, fn, args, kwargs)
                 return self.invoke_repo_function(fn, args, kwargs)
             return self.call_native(fn, args, kwargs)
         if isinstance(fn, type):
@@ -362,9 +362,9 @@ class InterpMixin(object):
                     return cls(*args, **kwargs)
                 except TypeError as e:
                     self.py_raise(TypeError, *e.args)
-            c = self.eng.contracts.get(cls)
-            if c is not None and self.cur_fn is not cls:
-                return self.apply_contract(c, cls, args, kwargs)
+            cs = self.eng.contracts.get(cls)
+            if cs and self.cur_fn is not cls:
+                return self.apply_contract(cs, cls, args, kwargs)
             return self.instantiate(cls, args, kwargs)
         return self.call_native(cls, args, kwargs)
 
